@@ -1,6 +1,6 @@
 /-
   Props/C01.lean — property C01: ISO dates and the day timeline are a Gregorian bijection.
-  `InWin` (|year| ≤ 10^6) and `InDayWin` (|day| ≤ 3·10^8) strictly contain Temporal's range
+  `InWin` (|year| ≤ 1.2·10^6) and `InDayWin` (|day| ≤ 4·10^8) strictly contain Temporal's range
   (years −271821 … 275760, days ±(10^8+1)); inside them every machine intermediate is exact.
 -/
 import TemporalModel.Lemmas.GregorianLemmas2
@@ -105,38 +105,44 @@ theorem C01_balance (y m d k : Int) (h : Valid y m d) (hy : InWin y)
 
 /-- The leap-year chain used for month lengths (`iso_days_in_month` → `epoch_time_for_year` →
     `epoch_time_to_epoch_year` → `neri_schneider::year` → `mathematical_days_in_year`) gives the Gregorian
-    month length and never reaches its assertion. -/
-theorem C01_days_in_month (y m : Int) (hy8 : -800000 ≤ y ∧ y ≤ 800000) (hm1 : 1 ≤ m) (hm12 : m ≤ 12) :
+    month length for **every** year and never reaches its assertion. -/
+theorem C01_days_in_month (y m : Int) (hm1 : 1 ≤ m) (hm12 : m ≤ 12) :
     isoDaysInMonth y m = .ok (dim y m) := by
-  have hy : InWin y := by unfold InWin; omega
-  have hyear : epochTimeToEpochYear (MS_PER_DAY * epochDaysForYear y) = y := by
+  -- the code reduces the year modulo 400 first; the reduced year lies in 2000..2399
+  generalize hy' : y % 400 + 2000 = y'
+  have hy8 : 2000 ≤ y' ∧ y' ≤ 2399 := by omega
+  have hy : InWin y' := by unfold InWin; omega
+  have hleap : isLeap y' = isLeap y := by
+    unfold isLeap; simp only [decide_eq_decide]; omega
+  have hyear : epochTimeToEpochYear (MS_PER_DAY * epochDaysForYear y') = y' := by
     unfold epochTimeToEpochYear
     simp only
-    have e : MS_PER_DAY * epochDaysForYear y / MS_PER_DAY = epochDaysForYear y := by
+    have e : MS_PER_DAY * epochDaysForYear y' / MS_PER_DAY = epochDaysForYear y' := by
       unfold MS_PER_DAY; omega
     rw [e]
-    have hys : epochDaysForYear y = dayNumber y 1 1 := by
+    have hys : epochDaysForYear y' = dayNumber y' 1 1 := by
       unfold epochDaysForYear dayNumber yearStart monthStart; simp
     rw [nsYear_eq, ← ymdFromEpochDays_eq, hys]
-    have hv : Valid y 1 1 := ⟨by omega, by omega, by omega, by unfold dim; simp⟩
-    have hwin : InDayWin (dayNumber y 1 1) := by
-      unfold InDayWin dayNumber yearStart monthStart InWin at *; simp; omega
-    have := C01_inverse y 1 1 hv hy hwin
-    rw [C01_toDays y 1 1 hy (by omega) (by omega)] at this
+    have hv : Valid y' 1 1 := ⟨by omega, by omega, by omega, by unfold dim; simp⟩
+    have hwin : InDayWin (dayNumber y' 1 1) := by
+      unfold InDayWin dayNumber yearStart monthStart; simp; omega
+    have := C01_inverse y' 1 1 hv hy hwin
+    rw [C01_toDays y' 1 1 hy (by omega) (by omega)] at this
     rw [this]
   have tz : ∀ (a n : Int), 0 < n → (Int.tmod a n = 0 ↔ a % n = 0) := by
     intro a n hn
     constructor
     · intro h; have := Int.dvd_of_tmod_eq_zero h; exact Int.emod_eq_zero_of_dvd this
     · intro h; exact Int.tmod_eq_zero_of_dvd (Int.dvd_of_emod_eq_zero h)
-  have hdiy : mathematicalDaysInYear y = .ok (diy y) := by
+  have hdiy : mathematicalDaysInYear y' = .ok (diy y') := by
     unfold mathematicalDaysInYear diy isLeap
     simp only [tz _ 4 (by decide), tz _ 100 (by decide), tz _ 400 (by decide), decide_eq_true_eq, ne_eq]
     (repeat (any_goals split)) <;> first | rfl | omega | (exfalso; omega)
   unfold isoDaysInMonth
+  rw [hy']
   have hm : m = 1 ∨ m = 2 ∨ m = 3 ∨ m = 4 ∨ m = 5 ∨ m = 6 ∨ m = 7 ∨ m = 8 ∨ m = 9 ∨ m = 10 ∨ m = 11 ∨ m = 12 := by omega
   rcases hm with rfl | rfl | rfl | rfl | rfl | rfl | rfl | rfl | rfl | rfl | rfl | rfl <;>
-    simp [dim, hyear, hdiy, diy] <;> split <;> rfl
+    simp [dim, hyear, hdiy, diy, hleap] <;> split <;> rfl
 
 /-! ### Derived calendar quantities (the oracle the ISO getters are compared with) -/
 
